@@ -14,6 +14,7 @@ import (
 	"fmt"
 	"math/rand"
 	"os"
+	"path/filepath"
 	"runtime"
 	"sync"
 	"time"
@@ -389,7 +390,23 @@ func (r *mvRun) exec(op []interface{}) bool {
 		}
 		r.drainPicked()
 		r.stored = sn
-		r.emit(tr.Ev{"e": "Store", "sn": sn, "ok": err == nil, "conc": conc}, true)
+		ev := tr.Ev{"e": "Store", "sn": sn, "ok": err == nil, "conc": conc, "main": [][2]int{}, "dfile": [][2]int{}, "readerr": ""}
+		if err == nil {
+			// what actually went into the shard files (in shard order) and into the delta files
+			main, e1 := readBackupFiles(d, filepath.Join(*mvBackupDir, "data"))
+			ev["main"] = main
+			if e1 != nil {
+				ev["readerr"] = e1.Error()
+			}
+			if d.Cfg.Delta {
+				df, e2 := readBackupFiles(d, filepath.Join(*mvBackupDir, "delta"))
+				ev["dfile"] = df
+				if e2 != nil {
+					ev["readerr"] = e2.Error()
+				}
+			}
+		}
+		r.emit(ev, true)
 	case "Restore":
 		// LoadFromDisk of the last backup into a fresh instance with the same configuration; the driver then
 		// continues on the restored instance
@@ -774,4 +791,36 @@ func mvccMain(args []string) int {
 	js, _ := json.Marshal(map[string]interface{}{"scenarios": nsc, "events": t.Count(), "failed": failed})
 	fmt.Println(string(js))
 	return 0
+}
+
+// readBackupFiles decodes the files listed in dir/files.json, in that order, with the instance's file reader.
+func readBackupFiles(d *nh.DB, dir string) ([][2]int, error) {
+	out := [][2]int{}
+	bs, err := os.ReadFile(filepath.Join(dir, "files.json"))
+	if err != nil {
+		return out, err
+	}
+	var files []string
+	if err := json.Unmarshal(bs, &files); err != nil {
+		return out, err
+	}
+	for _, f := range files {
+		rd := d.VerifNewFileReader(1)
+		if err := rd.Open(filepath.Join(dir, f)); err != nil {
+			return out, err
+		}
+		for {
+			itm, err := rd.ReadItem()
+			if err != nil {
+				rd.Close()
+				return out, err
+			}
+			if itm == nil {
+				break
+			}
+			out = append(out, d.Decode(itm.Bytes()))
+		}
+		rd.Close()
+	}
+	return out, nil
 }
